@@ -11,6 +11,10 @@
 //!                                     caller's local, which hides a global), tmp (`zzv=… eval` hides a global).
 //!                                     spec = `<s|a|A> <attrs|-> <n> <v1>…<vn>`, innermost first; every printer runs
 //!                                     where the innermost binding is the visible one.
+//!   cx <scope> <wrapper> <opts|-> <reader> <spec>…  -> the same segments: scope g|f1|f2|tmp; the printers run inside the
+//!                                     wrapper (none sub cs ev br lpipe pipe0 wh for trap src twice) under the options
+//!                                     (comma list: u f e E T h posix extglob … ifscomma ifsempty ps4); every text is
+//!                                     re-read through the reader route (ev src rd hd dw) in a fresh shell.
 //! Re-read results:  `W <n> <w1> …` (words), `V <attrs|-> <s|a|A|u> <k v>…` (variable), `S <body>`, `NONE`, `ERR`.
 use std::collections::BTreeMap;
 use brush_core::escape::{self, QuoteMode};
@@ -341,23 +345,138 @@ fn declares_zzv(l: &str) -> bool {
     r.starts_with("zzv=") || r == "zzv\n" || r == "zzv"
 }
 
-async fn shadow(f: &[String]) -> String {
-    let ctx = f[0].as_str();
-    let Some(specs) = parse_specs(&f[1..]) else { return "bad-spec".to_string() };
-    let want = if ctx == "f2" { 3 } else { 2 };
+/// Applies a statement in `sh` through one of the reader routes: `ev` eval, `src` a sourced file,
+/// `rd` lines taken by `read -r` and then evaluated, `hd` a quoted here-document read by `cat` and evaluated.
+async fn apply_stmt(sh: &mut vh::Sh, stmt: &str, rm: &str) -> bool {
+    let file = format!("{}.rd", out_path());
+    let r = match rm {
+        "src" | "rd" => {
+            let _ = std::fs::write(&file, format!("{stmt}\n"));
+            set_str(sh, "zzF", &file);
+            if rm == "src" {
+                run(sh, ". \"$zzF\" >/dev/null 2>&1 </dev/null").await
+            } else {
+                run(sh, "zzacc=; while IFS= read -r zzl; do zzacc+=$zzl$'\\n'; done < \"$zzF\"; eval \"$zzacc\" >/dev/null 2>&1 </dev/null").await
+            }
+        }
+        "hd" => {
+            let script = format!("zzh=$(cat <<'ZZEOF'\n{stmt}\nZZEOF\n)\neval \"$zzh\" >/dev/null 2>&1 </dev/null");
+            run(sh, &script).await
+        }
+        _ => {
+            set_str(sh, "zzT", stmt);
+            run(sh, "eval \"$zzT\" >/dev/null 2>&1 </dev/null").await
+        }
+    };
+    let _ = std::fs::remove_file(&file);
+    r.is_ok()
+}
+
+async fn read_args_rm(text: &str, rm: &str) -> String {
+    let mut sh = fresh().await;
+    let _ = run(&mut sh, "set -- zz-unset-marker").await;
+    if !apply_stmt(&mut sh, &format!("set -- {text}"), if rm == "dw" { "ev" } else { rm }).await {
+        return "ERR".to_string();
+    }
+    let ps: Vec<String> = sh.current_shell_args().iter().map(|s| s.to_string()).collect();
+    if ps.len() == 1 && ps[0] == "zz-unset-marker" {
+        return "ERR".to_string();
+    }
+    let mut o = format!("W {}", ps.len());
+    for p in ps {
+        o.push(' ');
+        o.push_str(&esc(&p));
+    }
+    o
+}
+
+async fn read_assign_rm(text: &str, rm: &str) -> String {
+    let mut sh = fresh().await;
+    let (stmt, rm) = if rm == "dw" { (format!("declare zzr={text}"), "ev") } else { (format!("zzr={text}"), rm) };
+    if !apply_stmt(&mut sh, &stmt, rm).await {
+        return "ERR".to_string();
+    }
+    match sh.env().get("zzr") {
+        Some((_, v)) => match v.value() {
+            ShellValue::String(s) => format!("S {}", esc(s)),
+            _ => dump_var(&sh, "zzr"),
+        },
+        None => "NONE".to_string(),
+    }
+}
+
+async fn eval_fresh_rm(text: &str, rm: &str) -> vh::Sh {
+    let mut sh = fresh().await;
+    let (stmt, rm) = if rm == "dw" {
+        (if text.starts_with("declare ") || text.starts_with("alias ") || text.starts_with("trap ") { text.to_string() } else { format!("declare {text}") }, "ev")
+    } else {
+        (text.to_string(), rm)
+    };
+    let _ = apply_stmt(&mut sh, &stmt, rm).await;
+    sh
+}
+
+fn dump_nameref(sh: &vh::Sh, name: &str) -> String {
+    // the variable itself, not what it refers to
+    for (n, var) in sh.env().iter() {
+        if n == name {
+            return match var.value() {
+                ShellValue::String(t) if var.is_treated_as_nameref() => format!("N {}", esc(t)),
+                _ => "NOTREF".to_string(),
+            };
+        }
+    }
+    "NONE".to_string()
+}
+
+fn option_commands(opts: &str) -> Result<String, String> {
+    let mut out = String::new();
+    for o in opts.split(',').filter(|o| !o.is_empty() && *o != "-") {
+        let cmd: String = match o {
+            "u" => "set -u\n".into(),
+            "f" => "set -f\n".into(),
+            "e" => "set -e\n".into(),
+            "E" => "set -E\n".into(),
+            "T" => "set -T\n".into(),
+            "h" => "set +h\n".into(),
+            "posix" => "set -o posix\n".into(),
+            "extglob" | "nullglob" | "dotglob" | "nocasematch" | "globstar" | "expand_aliases" | "lastpipe"
+            | "inherit_errexit" | "extquote" => format!("shopt -s {o}\n"),
+            "noextquote" => "shopt -u extquote\n".into(),
+            "ifscomma" => "IFS=,\n".into(),
+            "ifsempty" => "IFS=\n".into(),
+            "ps4" => "zzn=7; PS4='+<$zzn:${#zzn}> '\n".into(),
+            other => return Err(other.to_string()),
+        };
+        out.push_str(&cmd);
+    }
+    Ok(out)
+}
+
+/// `cx <scope> <wrapper> <opts> <reader> <spec>…`: every printer run where the innermost spec is the visible
+/// binding of `zzv` (scope g: a global; f1/f2: locals hiding it; tmp: a temporary binding), inside the wrapper
+/// (none, sub, cs, ev, br, lpipe, pipe0, wh, for, trap, src, twice), under the options; each text is then
+/// re-read through the reader route in a fresh shell.
+async fn ctxrun(scope: &str, wrapper: &str, opts: &str, rm: &str, specf: &[String]) -> String {
+    let Some(specs) = parse_specs(specf) else { return "bad-spec".to_string() };
+    let want = match scope { "g" => 1, "f2" => 3, "f1" | "tmp" => 2, _ => return "bad-scope".to_string() };
     if specs.len() != want {
         return "bad-spec".to_string();
     }
+    let optcmds = match option_commands(opts) { Ok(c) => c, Err(o) => return format!("bad-option {o}") };
+    let ps4 = opts.split(',').any(|o| o == "ps4");
     let inner = &specs[0];
     let outer = &specs[specs.len() - 1];
     let mut a = fresh().await;
-    // the global that is hidden, with its own value, kind and attributes; and the sentinel after it
     let mut var = ShellVariable::new(spec_value(outer));
     apply_attrs(&mut var, &outer.attrs);
     a.env_mut().set_global("zzv", var).unwrap();
     let mut w = ShellVariable::new(ShellValue::String("END".to_string()));
     w.export();
     a.env_mut().set_global("zzw", w).unwrap();
+    let mut nr = ShellVariable::new(ShellValue::String("zzv".to_string()));
+    nr.treat_as_nameref();
+    a.env_mut().set_global("zzNR", nr).unwrap();
     for (li, sp) in specs[..specs.len() - 1].iter().enumerate() {
         for (i, v) in sp.vals.iter().enumerate() {
             set_str(&mut a, &format!("zzL{li}x{i}"), v);
@@ -369,15 +488,15 @@ async fn shadow(f: &[String]) -> String {
         a.traps_mut().register_handler(usr1(), inner.vals[0].clone(), brush_core::SourceInfo::from("vh"));
     }
     let base = out_path();
-    let forms: Vec<&str> = if scalar {
-        let mut v = vec!["pq", "Q", "A", "dp", "dpl", "set", "ex", "xt", "xs", "al", "tr"];
-        if ctx != "tmp" {
-            v.push("lp");
-        }
-        v
+    let in_fn = scope == "f1" || scope == "f2";
+    let mut forms: Vec<&str> = if scalar {
+        vec!["pq", "Q", "A", "dp", "dpl", "set", "ex", "xt", "xs", "al", "tr", "nr"]
     } else {
-        vec!["Qa", "Aa", "dpa", "dpl", "seta", "lp"]
+        vec!["Qa", "Aa", "dpa", "dpl", "seta", "ex"]
     };
+    if in_fn {
+        forms.push("lp");
+    }
     for fm in &forms {
         let _ = std::fs::remove_file(format!("{base}.{fm}"));
     }
@@ -388,7 +507,7 @@ async fn shadow(f: &[String]) -> String {
             "pq" => "printf %q \"$zzv\" > \"$zzO.pq\"\n",
             "Q" => "printf '%s' \"${zzv@Q}\" > \"$zzO.Q\"\n",
             "A" => "printf '%s' \"${zzv@A}\" > \"$zzO.A\"\n",
-            "Qa" => "printf '%s' \"${zzv[*]@Q}\" > \"$zzO.Qa\"\n",
+            "Qa" => "printf '%s ' \"${zzv[@]@Q}\" > \"$zzO.Qa\"\n",
             "Aa" => "printf '%s' \"${zzv[@]@A}\" > \"$zzO.Aa\"\n",
             "dp" => "declare -p zzv > \"$zzO.dp\"\n",
             "dpa" => "declare -p zzv > \"$zzO.dpa\"\n",
@@ -399,25 +518,61 @@ async fn shadow(f: &[String]) -> String {
             "xt" => "{ set -x; : \"$zzv\"; set +x; } 2> \"$zzO.xt\"\n",
             "xs" => "{ set -x; zzt=$zzv; set +x; } 2> \"$zzO.xs\"\n",
             "al" => "alias zzal > \"$zzO.al\"\n",
-            "tr" => "trap -p > \"$zzO.tr\"\n",
+            "tr" => "trap -p USR1 > \"$zzO.tr\"\n",
+            "nr" => "declare -p zzNR > \"$zzO.nr\"\n",
             "lp" => "local -p > \"$zzO.lp\"\n",
             _ => "",
         });
     }
-    let script = match ctx {
-        "f1" => format!("zzf() {{\n{}\n{body}}}\nzzf", local_decl(inner, "zzL0x")),
+    set_str(&mut a, "zzB", &body);
+    let wrapped = match wrapper {
+        "none" => body.clone(),
+        "sub" => format!("(\n{body})\n"),
+        "cs" => format!("zzd=$(\n{body})\n"),
+        "ev" => "eval \"$zzB\"\n".to_string(),
+        "br" => format!("{{\n{body}}} </dev/null\n"),
+        "lpipe" => format!("shopt -s lastpipe\ntrue | {{\n{body}}}\n"),
+        "pipe0" => format!("{{\n{body}}} | cat >/dev/null\n"),
+        "wh" => format!("while true; do\n{body}break\ndone\n"),
+        "for" => format!("for zzi in 1 2; do\n{body}done\n"),
+        "trap" => "trap \"$zzB\" ERR\nfalse\ntrap - ERR\n".to_string(),
+        "src" => {
+            let _ = std::fs::write(format!("{base}.src"), &body);
+            ". \"$zzO.src\"\n".to_string()
+        }
+        "twice" => format!("{body}{body}"),
+        _ => return "bad-wrapper".to_string(),
+    };
+    let script = match scope {
+        "g" => format!("{optcmds}{wrapped}"),
+        "f1" => format!("{optcmds}zzf() {{\n{}\n{wrapped}}}\nzzf", local_decl(inner, "zzL0x")),
         "f2" => format!(
-            "zzg() {{\n{}\nzzf\n}}\nzzf() {{\n{}\n{body}}}\nzzg",
+            "{optcmds}zzg() {{\n{}\nzzf\n}}\nzzf() {{\n{}\n{wrapped}}}\nzzg",
             local_decl(&specs[1], "zzL1x"),
             local_decl(inner, "zzL0x")
         ),
-        "tmp" => {
-            set_str(&mut a, "zzB", &body);
-            "zzv=$zzL0x0 eval \"$zzB\"".to_string()
+        _ => {
+            set_str(&mut a, "zzW", &wrapped);
+            format!("{optcmds}zzv=$zzL0x0 eval \"$zzW\"")
         }
-        _ => return "bad-ctx".to_string(),
     };
     let _ = run(&mut a, &script).await;
+    let _ = std::fs::remove_file(format!("{base}.src"));
+    let trace_of = |raw: &str, what: &str| -> Option<String> {
+        // a trace line: the first character of PS4 repeated, the rest of PS4, then the command
+        let rest = if ps4 { "<7:1> " } else { " " };
+        for l in raw.split('\n') {
+            let t = l.trim_start_matches('+');
+            if t.len() < l.len() {
+                if let Some(cmd) = t.strip_prefix(rest) {
+                    if let Some(x) = cmd.strip_prefix(what) {
+                        return Some(x.to_string());
+                    }
+                }
+            }
+        }
+        None
+    };
     let mut segs = vec![];
     for fm in &forms {
         let raw = std::fs::read(format!("{base}.{fm}")).ok().map(|b| String::from_utf8_lossy(&b).into_owned());
@@ -427,17 +582,13 @@ async fn shadow(f: &[String]) -> String {
             continue;
         };
         let text: Option<String> = match *fm {
-            "pq" | "Q" | "A" | "Qa" | "Aa" => Some(raw),
-            "dp" | "dpa" | "al" | "tr" => Some(strip_nl(raw)),
-            "dpl" | "lp" => line_of(&raw, declares_zzv, "declare -"),
-            "ex" => line_of(&raw, declares_zzv, "declare -"),
+            "pq" | "Q" | "A" | "Aa" => Some(raw),
+            "Qa" => Some(raw.strip_suffix(' ').map(|x| x.to_string()).unwrap_or(raw)),
+            "dp" | "dpa" | "al" | "tr" | "nr" => Some(strip_nl(raw)),
+            "dpl" | "lp" | "ex" => line_of(&raw, declares_zzv, "declare -"),
             "set" | "seta" => between(&raw, "zzv=", "zzw=END"),
-            "xt" => between(&raw, "+ : ", "+ set +x").map(|l| l["+ : ".len()..].to_string())
-                .or_else(|| between(&raw, "++ : ", "++ set +x").map(|l| l["++ : ".len()..].to_string()))
-                .or_else(|| between(&raw, "+++ : ", "+++ set +x").map(|l| l["+++ : ".len()..].to_string())),
-            "xs" => between(&raw, "+ zzt=", "+ set +x").map(|l| l["+ ".len()..].to_string())
-                .or_else(|| between(&raw, "++ zzt=", "++ set +x").map(|l| l["++ ".len()..].to_string()))
-                .or_else(|| between(&raw, "+++ zzt=", "+++ set +x").map(|l| l["+++ ".len()..].to_string())),
+            "xt" => trace_of(&raw, ": "),
+            "xs" => trace_of(&raw, "zzt=").map(|x| format!("zzt={x}")),
             _ => None,
         };
         let Some(t) = text else {
@@ -445,28 +596,34 @@ async fn shadow(f: &[String]) -> String {
             continue;
         };
         let rr = match *fm {
-            "pq" | "Q" | "xt" => format!("{} %; {}", read_args(&t).await, read_assign(&t).await),
-            "Qa" => read_args(&t).await,
-            "xs" => read_stmt_var(&t, "zzt").await,
+            "pq" | "Q" | "xt" => format!("{} %; {}", read_args_rm(&t, rm).await, read_assign_rm(&t, rm).await),
+            "Qa" => read_args_rm(&t, rm).await,
+            "xs" => dump_var(&eval_fresh_rm(&t, rm).await, "zzt"),
             "al" => {
-                let sh = eval_fresh(&t).await;
+                let sh = eval_fresh_rm(&t, rm).await;
                 match sh.aliases().get("zzal") {
                     Some(b) => format!("S {}", esc(b)),
                     None => "NONE".to_string(),
                 }
             }
             "tr" => {
-                let sh = eval_fresh(&t).await;
+                let sh = eval_fresh_rm(&t, rm).await;
                 match sh.traps().get_handler(usr1()) {
                     Some(h) => format!("S {}", esc(&h.command)),
                     None => "NONE".to_string(),
                 }
             }
-            _ => read_stmt_var(&t, "zzv").await,
+            "nr" => dump_nameref(&eval_fresh_rm(&t, rm).await, "zzNR"),
+            _ => dump_var(&eval_fresh_rm(&t, rm).await, "zzv"),
         };
         segs.push(format!("{fm} %; {} %; {rr}", esc(&t)));
     }
     segs.join(" %| ")
+}
+
+async fn shadow(f: &[String]) -> String {
+    // `sh <ctx> <spec>…` = the shadowing contexts without wrapper, options, and with the plain `eval` reader
+    ctxrun(f[0].as_str(), "none", "-", "ev", &f[1..]).await
 }
 
 async fn handle(line: &str) -> String {
@@ -502,6 +659,7 @@ async fn handle(line: &str) -> String {
         }
         "e2e" if f.len() >= 3 => e2e(&f[1..]).await,
         "sh" if f.len() >= 5 => shadow(&f[1..]).await,
+        "cx" if f.len() >= 8 => ctxrun(&f[1], &f[2], &f[3], &f[4], &f[5..]).await,
         _ => "bad-request".to_string(),
     }
 }
